@@ -55,6 +55,10 @@ func planOne(rt *router.Router, phyDBs map[string]string, st c07stmt) string {
 		if len(tokens) == 0 {
 			return "notokens"
 		}
+		// (the session's pre-check, step by step: a sharded table named anywhere sends the statement to the full analysis)
+		if plan.MentionsShardTable(tokens, rt) {
+			return "mentions-a-sharded-table"
+		}
 		tokenID, ok := mysql.ParseTokenMap[strings.ToLower(tokens[0])]
 		if !ok {
 			return "notfast"
@@ -106,7 +110,16 @@ func runC07(r *simkit.Run) {
 	dbs := []string{"db_a", "db_b", "db_c", "db_mycat"}
 	gen := func() c07stmt {
 		db := dbs[tp.Choose(len(dbs))]
-		switch tp.Choose(17) {
+		switch tp.Choose(20) {
+		case 17:
+			// range conditions on the range rule: unions and complements of sub-table lists
+			lo, hi := []int{50, 100, 150, 99}[tp.Choose(4)], []int{250, 300, 320, 399}[tp.Choose(4)]
+			return c07stmt{"db_b", fmt.Sprintf("select * from t_range where id < %d or id >= %d", lo, hi), "plan"}
+		case 18:
+			lo, hi := []int{100, 120, 199}[tp.Choose(3)], []int{200, 299, 310}[tp.Choose(3)]
+			return c07stmt{"db_b", fmt.Sprintf("select * from t_range where id %sbetween %d and %d", []string{"", "not "}[tp.Choose(2)], lo, hi), "plan"}
+		case 19:
+			return c07stmt{"db_b", fmt.Sprintf("update t_range set a = 2 where id > %d and id <= %d", tp.Choose(200), 200+tp.Choose(199)), "plan"}
 		case 14:
 			return c07stmt{db, "select * from " + []string{"DB_A", "Db_a", "db_A"}[tp.Choose(3)] + ".t_hash where id = " + key(), "plan"}
 		case 15:
